@@ -3,12 +3,15 @@
 package proxy
 
 import (
+	"context"
 	"net"
 	"sync/atomic"
 
 	"github.com/fatedier/frp/client/event"
 	v1 "github.com/fatedier/frp/pkg/config/v1"
 	"github.com/fatedier/frp/pkg/msg"
+	"github.com/fatedier/frp/pkg/transport"
+	"github.com/fatedier/frp/pkg/vnet"
 	"github.com/fatedier/frp/verif"
 )
 
@@ -77,6 +80,24 @@ const (
 // a withdrawal for this wrapper in the events considered.
 func verifIsStart(p any) bool { _, ok := p.(*event.StartProxyPayload); return ok }
 func verifIsClose(p any) bool { _, ok := p.(*event.CloseProxyPayload); return ok }
+
+// NewWrapper: a new wrapper for the given configuration, in phase "new", with
+// its own two open channels (shared with no wrapper o that existed before); a
+// health-checked proxy starts unhealthy - "not registered before its first
+// successful probe" - and gets a monitor, any other starts healthy.
+//
+//verif:contract ~/client/proxy.NewWrapper
+//verif:props C19
+func verif_NewWrapper(ctx context.Context, cfg v1.ProxyConfigurer, clientCfg *v1.ClientCommonConfig, h event.Handler, tr transport.MessageTransporter, vc *vnet.Controller, o *Wrapper) {
+	verif.Requires(cfg != nil, "configuration_present")
+	b := cfg.GetBaseConfig()
+	checked := b.HealthCheck.Type != "" && b.LocalPort > 0
+	w := NewWrapper(ctx, cfg, clientCfg, h, tr, vc)
+	verif.Ensures(w != nil && w != o && verif.Same(w.Cfg, cfg) && w.Phase == ProxyPhaseNew && w.Name == b.Name, "new_wrapper_for_this_configuration")
+	verif.Ensures(w.closeCh != nil && w.healthNotifyCh != nil && !verif.Closed(w.closeCh) && !verif.Closed(w.healthNotifyCh), "own_open_channels")
+	verif.Ensures(w.closeCh != o.closeCh && w.healthNotifyCh != o.healthNotifyCh, "channels_shared_with_no_other_wrapper")
+	verif.Ensures((w.health == 1) == checked && (w.monitor != nil) == checked, "health_checked_proxy_starts_unhealthy_with_a_monitor")
+}
 
 // SetRunningStatus: a server reply is honoured only while the wrapper waits for
 // one ("reported status follows only the legal transitions"): in any other
